@@ -39,8 +39,17 @@ class Discard(Exception):
         self.reason = reason
 
 
+class CaseTimeout(BaseException):
+    pass
+
+
+def _alarm(signum, frame):
+    raise CaseTimeout()
+
+
 class Sub:
-    def __init__(self, name, strategy, check, examples, weight=1.0, deterministic=True, shrink=True):
+    def __init__(self, name, strategy, check, examples, weight=1.0, deterministic=True, shrink=True, timeout=120):
+        self.timeout = timeout        # seconds; a case that runs this long (normal: milliseconds) is reported as kind "hang"
         self.name = name
         self.strategy = strategy      # callable(tier) -> SearchStrategy of plain data
         self.check = check            # callable(case, rec)
@@ -156,8 +165,18 @@ def _run_case(mod, sub, case, st, findings, ignored, count=True):
     if count:
         st.evaluations += 1
         st.per_sub[sub.name] += 1
+    import signal
     try:
-        sub.check(case, rec)
+        old = signal.signal(signal.SIGALRM, _alarm)
+        signal.setitimer(signal.ITIMER_REAL, sub.timeout)
+        try:
+            try:
+                sub.check(case, rec)
+            finally:
+                signal.setitimer(signal.ITIMER_REAL, 0)
+                signal.signal(signal.SIGALRM, old)
+        except CaseTimeout:
+            raise Violation('hang', f'case did not finish within {sub.timeout}s (normal cases take milliseconds)', where='timeout')
     except Discard as d:
         st.discards[sub.name + ':' + d.reason] += 1
         return None
